@@ -196,6 +196,9 @@ def instrumented(tracers: List[BaseTracer]) -> Callable[[Callable[..., Any]], Ca
                     for tracer in tracers
                 ]
             ):
+                for tracer in tracers:
+                    # unlike a sandbox, the function has no wrapper frames in its file whose events are to be skipped
+                    tracer._num_sandbox_calls_seen = 2
                 return f(*args, **kwargs)
 
         return instrumented_f
